@@ -1,7 +1,7 @@
 """Per-property configuration: which binary/flavour, how many cases, gates, evidence text."""
 
 RUNNER_TUS = {
-    'runner': ['rc_driver.cpp', 'pbt_movegen.cpp', 'pbt_position.cpp', 'pbt_moves.cpp', 'exh_tables.cpp', 'pbt_eval.cpp'],
+    'runner': ['rc_driver.cpp', 'pbt_movegen.cpp', 'pbt_position.cpp', 'pbt_moves.cpp', 'exh_tables.cpp', 'pbt_eval.cpp', 'pbt_book.cpp'],
 }
 
 ORACLE_ASSUMPTION = ('ref/refchess.h (independent mailbox rules oracle) is correct; it is validated on every run by '
@@ -207,6 +207,20 @@ PROPS['C14'] = dict(
     assumptions=[],
     quick=dict(cases=220, shards=16, scale=3, gates={'c14:pawn_cache_hit_expected': 300, 'c14:slot_collision_eval': 300, 'c14:pawnless_after_clear': 100, 'c14:slot0_structures_found': 1, 'c14:slot0_clear_pawnless_sequence': 20}, min_nontrivial=1000),
     thorough=dict(cases=6000, shards=16, scale=3, gates={'c14:slot0_structures_found': 4}, min_nontrivial=50000),
+)
+
+PROPS['C19'] = dict(
+    level='fault_enumeration',
+    technique=PBT + ' over generated byte-level book files (well-formed, empty, truncated); reference reader + exact record multiset + bounded statistics for the sampler',
+    level_text=('Book files are generated as byte strings (0-40 records, keys from a pool of real positions so keys repeat, castling as king-takes-rook, promotions, weights incl. 0/1/65535, '
+                'tails truncated by 1-15 bytes, empty files) and loaded by the engine; the loaded record multiset per key (read through a guarded friend hook) must equal the file\'s complete records; '
+                'best = a maximal-weight move correctly decoded; random = never a zero-weight move (exact) and frequencies within 0.04 of weight/sum over 20,000 draws when sum <= 12.'),
+    level_note='Statistical part: Hoeffding bound on a false alarm per comparison 2*exp(-2*20000*0.04^2) < 1e-27; an off-by-one boundary moves a probability by >= 1/12 > 2*0.04. Keys whose weights are all zero are outside the domain.',
+    rule='evaluations = books loaded + policy checks. Non-trivial = distinct books with a repeated key, a zero weight, a truncated tail, or empty.',
+    assumptions=['decode of a record in a position follows the Polyglot format text (castling stored as king-takes-rook, also accepted in king-two-squares form)'],
+    quick=dict(cases=150, shards=16, scale=3, gates={'c19:truncated_file': 100, 'c19:empty_file': 30, 'c19:repeated_key': 300, 'c19:zero_weight': 200,
+                                                  'c19:castling_record': 100, 'c19:promotion_record': 50, 'c19:distribution_checked': 100}, min_nontrivial=500),
+    thorough=dict(cases=3000, shards=16, scale=3, min_nontrivial=20000),
 )
 
 HOOK_COMMITS = ['2ee17ca']
